@@ -143,7 +143,7 @@ func SimC04(c *CheckCtx, i int, r *Rng) error {
 		}
 	}
 	eps := drawEntrypoints(r, m)
-	if clash && r.P(0.6) {
+	if clash && r.P(0.35) {
 		// the package that mentions only one of the two clashing paths, generated without - or, where it
 		// sorts first, before - the package that mentions both
 		if m.Pkgs[2].Dir > m.Pkgs[3].Dir {
